@@ -134,7 +134,7 @@ def rules(ctx, db):
                 ok = consts_only or bool(args0 & args1)
             ctx.ob("R3", "raw-slice-from-one-object:%s#%d" % (f.name, bb), ok,
                    "pointer and length of a raw slice derive from the same parameter (an object's own accessors)", f)
-    ctx.floor("R3", "raw slice constructions in compio-buf / pool / sys_slice", n3, 10)
+    ctx.floor("R3", "raw slice constructions in compio-buf / pool / sys_slice", n3, 8)
     # ---------------- R4
     slf = [f for f in db.fns.values() if f.name == "compio_buf::io_buf::IoBufExt::slice"]
     if not slf:
